@@ -23,6 +23,12 @@
                                     carrying a value; `C02_worker_put_never_overwrites`.
 
   Helper lemmas: `CachedProofs/Lemmas/Frame.lean` (`visible`, `OnlyRead`, `KeyCh`/`step_key`, `Written`/`ReachW`).
+
+  The same property at ACTION granularity (a read is two separately scheduled actions per key, any interleaving in
+  between) is in LayerB/Theorems.lean, imported here so that it is built and audited with this module:
+  `C02_layerB_read_current` (`get`), `C02_layerB_ref_store` (`get_ref`), and for the multi-key reads (`multi_get` and
+  its iterators) `C02_layerB_mread_current` (one key) and `C02_layerB_mget_current` (the whole call: every value
+  returned at position `j` was the value of an alive entry of `ks[j]` at that key's own `store.get` action).
 -/
 import CachedProofs.LayerB.Theorems
 import CachedProofs.Lemmas.Frame
